@@ -349,9 +349,9 @@ func Oracle(name string, args []Arg, r *Req) hv.Val {
 	sort.Strings(texts)
 	ipt, ret, rmt, tit, tot, hat, ist := hv.L{}, hv.L{}, hv.L{}, hv.L{}, hv.L{}, hv.L{}, hv.L{}
 	isIP := strings.Contains(name, "ip_") || strings.Contains(name, "vip")
-	isRe := strings.HasSuffix(name, "_regmatch")
+	isRe := strings.Contains(name, "_regmatch")
 	isTime := strings.Contains(name, "time")
-	isHash := strings.HasSuffix(name, "_hash_in")
+	isHash := strings.Contains(name, "_hash_in")
 	for _, s := range texts {
 		if isIP {
 			ip := net.ParseIP(s)
